@@ -183,7 +183,7 @@ func numericLattice(emit func(caseSpec), threeEntryPL map[string]bool) {
 			ml := multiLens()
 			var rec func(cur []int)
 			rec = func(cur []int) {
-				if n := len(cur); n > 0 && (n < 3 || threeEntryPL == nil || threeEntryPL[pl.name]) {
+				if n := len(cur); n > 0 && (n < 3 || threeEntryPL == nil || (threeEntryPL[pl.name] && pn >= 20)) {
 					for mask := 0; mask < 1<<n; mask++ {
 						var files []any
 						var names []string
